@@ -39,14 +39,49 @@ def jobs(tier):
         J("latentTOD[{}-{:02d}]".format(y, m), "ob_latent_tod", [fn_id(PL._latent_tod), "dateutil.relativedelta (real)"],
           "ts: every instant of {}-{:02d} (d, h, mi, s symbolic); written hour 0..23, minute None|0..59".format(y, m),
           lift="lift_latent_tod", env={"VQ_Y": str(y), "VQ_M": str(m)}, site="_latent_tod")
+    import sys
+    import ctparse.ctparse  # noqa
+    CC = sys.modules["ctparse.ctparse"]
+    out.append(Job("C06.NOTATIONS-API", "vq.harness.h_api2", "ob_clock", timeout=3600, path_timeout=300, env={"VQ_WIDE": "0" if tier == "quick" else "1"},
+                   bounds="{} hours x {} minutes x 3 reference times: every notation of the property text (24h, am/pm, Uhr, h, four-digit, o'clock, named hour + part of day, quarter/half) gives that hour and minute with latent_time off; bare clock time with latent_time on = first such time strictly after the reference minute".format(*((8, 4) if tier == "quick" else (24, 60))),
+                   functions=[fn_id(CC.ctparse)], stubs=["parser untraced; pool indices symbolic (solver covers every combination)"], site="ctparse"))
     return out
 
 
+def tok_lemmas():
+    from .. import toklemmas as T, e2
+    from ..spec import words as W
+    out = [e2.validate(200)]
+    for k in range(1, 13):
+        out.append(T.word_in_group("C06", 104, "t_%d" % k, W.HOURS_EN[k - 1], str(k)))
+        out.append(T.word_in_group("C06", 104, "t_%d" % k, W.HOURS_DE[k - 1], str(k)))
+    out.append(T.groups_disjoint("C06", 104, ["t_%d" % k for k in range(1, 13)]))
+    for pid in (127, 128, 129):
+        out.append(T.numeric_range("C06", pid, "hour", 0, 23))
+    for pid in (127, 128):
+        out.append(T.numeric_range("C06", pid, "minute", 0, 59))
+    return out
+
+
+def known_witnesses():
+    def bare():
+        from datetime import datetime
+        import sys
+        import ctparse.ctparse  # noqa
+        C = sys.modules["ctparse.ctparse"]
+        r = C.ctparse("9 in the morning", ts=datetime(2018, 3, 7, 12, 43), timeout=0, latent_time=False).resolution
+        ok = getattr(r, "hour", None) == 9 and getattr(r, "day", None) is None
+        return None if ok else "'9 in the morning' -> %s" % (r,)
+    return {"bare-hour-in-pod": bare}
+
+
 def run(tier, t0, only=None):
+    from ..core import known_lines_for
     js = [j for j in jobs(tier) if not only or only in j.name]
     res = run_jobs(js)
+    res += [r for r in tok_lemmas() if not only or only in r.name]
     return finish(
-        "C06", tier, res, t0,
+        "C06", tier, res, t0, known_lines=known_lines_for("C06", known_witnesses()),
         assumptions=["group texts denote the integers the stub hands over (token lemmas TOK-VAL, decided by the E2 queries of this property when built)",
                      "CrossHair's datetime model (latent anchoring)"],
         explanation="Exact contracts of every clock rule body (24h, am/pm, military, o'clock, named hours, quarter/half, hour + part of day) and of the "
